@@ -311,8 +311,45 @@ func (fc *FnCtx) def(prefix, sort, term string) string {
 func (fr *Frame) callStatic(callee *ssa.Function, args []Val, free []Val, cc *ssa.CallCommon, resT types.Type, st *State, reach string) Val {
 	fc := fr.fc
 	name := callee.String()
+	// pointer-receiver wrapper of a value method ((*T).M for func (T) M): load the receiver, call the method
+	if strings.HasPrefix(callee.Synthetic, "wrapper for") && callee.Signature.Recv() != nil && len(args) > 0 {
+		if pt, ok := callee.Signature.Recv().Type().Underlying().(*types.Pointer); ok {
+			var pkg *types.Package
+			if nt, ok := types.Unalias(pt.Elem()).(*types.Named); ok {
+				pkg = nt.Obj().Pkg()
+			}
+			if vm := fc.W.Prog.LookupMethod(pt.Elem(), pkg, callee.Name()); vm != nil && vm != callee {
+				recv := args[0]
+				if recv.PBase == nil {
+					recv.PBase = pt.Elem()
+				}
+				fc.safety(reach, eq(recv.T, "0"), "nil-deref", cc)
+				rv := fc.load(st, recv)
+				rv.Typ = pt.Elem()
+				return fr.callStatic(vm, append([]Val{rv}, args[1:]...), free, cc, resT, st, reach)
+			}
+		}
+	}
 	if p, ok := staticPrelude[name]; ok {
 		return p.fn(&preCall{fr: fr, st: st, reach: reach, args: args, cc: cc, resT: resT, name: name})
+	}
+	// protobuf-generated getter of an external package: func (m *T) GetX() X { if m != nil { return m.X }; return zero }
+	if len(callee.Blocks) == 0 && strings.HasPrefix(callee.Name(), "Get") && callee.Signature.Recv() != nil && len(args) == 1 {
+		if pt, ok := callee.Signature.Recv().Type().Underlying().(*types.Pointer); ok {
+			if _, isStruct := pt.Elem().Underlying().(*types.Struct); isStruct {
+				if _, f, ok := fc.B.fieldOf(pt.Elem(), strings.TrimPrefix(callee.Name(), "Get")); ok && callee.Signature.Results().Len() == 1 &&
+					fc.B.SortOf(callee.Signature.Results().At(0).Type()) == f.sort {
+					recv := args[0]
+					if recv.PBase == nil {
+						recv.PBase = pt.Elem()
+					}
+					obj := fc.load(st, recv)
+					fc.trusted["external protobuf getters (*T).GetX return the field X (zero value for a nil receiver)"] = true
+					rt := callee.Signature.Results().At(0).Type()
+					return fc.mkVal(rt, fc.def("getter", f.sort, ite(eq(recv.T, "0"), fc.zero(rt), "("+f.sel+" "+obj.T+")")))
+				}
+			}
+		}
 	}
 	if callee.Origin() != nil {
 		if p, ok := staticPrelude[callee.Origin().String()]; ok {
